@@ -17,6 +17,8 @@ namespace Fit.Crc
 /-- byte strings: every element is a byte -/
 def Bytes (p : List Nat) : Prop := ∀ b ∈ p, b < 256
 
+instance (p : List Nat) : Decidable (Bytes p) := by unfold Bytes; infer_instance
+
 theorem Bytes.nil : Bytes [] := by intro b hb; cases hb
 theorem Bytes.cons {b : Nat} {p : List Nat} (hb : b < 256) (hp : Bytes p) : Bytes (b :: p) := by
   intro x hx; rcases List.mem_cons.mp hx with h | h
